@@ -83,7 +83,7 @@ def epochSubM (cfg : Config) (agg : AggOracle) (sub : String) (s : State) : Opti
   | "all" => some (Impl.processEpochM cfg agg s)
   | "justification" => some (Impl.justificationM cfg s)
   | "inactivity" => if s.fork = .phase0 then none else some (Impl.inactivityM cfg s)
-  | "rewards" => if s.fork = .phase0 then none else some (Impl.rewardsAltairM cfg s)
+  | "rewards" => if s.fork = .phase0 then some (Impl.rewardsPhase0M cfg s) else some (Impl.rewardsAltairM cfg s)
   | "registry" => some (Impl.registryM cfg s.validators s)
   | "slashings" => some (Impl.slashingsM cfg s.validators s)
   | "effective_balance" => some (Impl.effectiveBalanceM cfg s.validators s)
